@@ -17,3 +17,9 @@ chk("C03", "model_checking",
     "For every scenario of a bounded alphabet (2-4 goroutines, <=2-3 straight-line ops each from send/recv/recv-ok/close/range/len/select(+default)/Gosched/Goexit/NumGoroutine on 1-2 channels that are nil or of capacity 0..2, with and without recover, with and without an exported Go function) the model's complete state space is enumerated and the compiled interpreter program is run under every resolution of the runtime's own nondeterminism up to the deviation bound (2 quick / 3 thorough); each observed global log order + end (exit, reported deadlock, silent stuck, panic) must be one the model allows, so lost wake-ups, wrong wake targets, spurious or missing deadlock reports, lost/duplicated/reordered values are all violations.",
     "Trusted: js/chanmodel.js as the transcription of Go's channel semantics (validated the other way round by replaying every implementation trace through it); partner choice among parked goroutines and ready-case choice are left unconstrained as the language does. One vm context is reused across executions of a shard (violations are re-run twice in fresh contexts before being reported).",
     "DESIGN.md section 3 C03", "E3 controlled JS executor / stateless explorer")
+
+chk("C14", "exploration",
+    "bounded exhaustive enumeration of byte strings / rune values inside an explorer program; differential against native Go (plain and minified builds)",
+    "All byte strings of length <= 4 (quick) / 5 (thorough) over a 15-byte alphabet made of the edges of every UTF-8 decoder branch, with every index, every slice pair, range iteration, []rune/[]byte round trips, copy/append, comparison/concatenation with all strings of length <= 2, switch and map-key use; string(rune) and []rune->string for every value -4096..0x110fff; integer carriers; out-of-range index/slice panics; a table of ~500 literals (every <=2-byte string over the alphabet, minimal and full escaping, raw literals, non-BMP, surrogate-encoding bytes). Digest per (operation, length, first byte); a second pass prints the first diverging string.",
+    "Trusted: native Go as reference; 2x32-bit digests. Strings containing bytes outside the alphabet are not explored (the alphabet holds one representative of every decoder branch edge).",
+    "DESIGN.md section 3 C14", "differential harness")
